@@ -37,11 +37,26 @@ const defaultBufSize = 4096
 // entry properties of a MetaLeaseSet ("the identity, key, lease and signature
 // parts"). Their observation therefore leaves out the options accessors and
 // everything that serialises the options.
+func set(names ...string) map[string]bool {
+	m := map[string]bool{}
+	for _, n := range names {
+		m[n] = true
+	}
+	return m
+}
+
+// The restricted observation is an allow-list: exactly the accessors of the
+// identity, key, lease / entry, signature and header parts. Anything else the
+// type offers now or later (serialisers, Verify, Validate, new accessors that
+// may include the options) belongs to the full observation only.
 var (
 	plainOpt = obs.Options{}
-	ls2Opt   = obs.Options{Deny: map[string]bool{"LeaseSet2.Options": true, "LeaseSet2.Bytes": true, "LeaseSet2.Verify": true}}
-	mlsOpt   = obs.Options{Deny: map[string]bool{"MetaLeaseSet.Options": true, "MetaLeaseSet.Bytes": true, "MetaLeaseSet.Verify": true,
-		"MetaLeaseSetEntry.Properties": true, "MetaLeaseSetEntry.Bytes": true}}
+	ls2Opt   = obs.Options{AllowOnly: map[string]map[string]bool{"LeaseSet2": set("Destination", "Published", "PublishedTime", "Expires", "ExpirationTime", "Flags",
+		"HasOfflineKeys", "IsUnpublished", "IsBlinded", "OfflineSignature", "EncryptionKeys", "EncryptionKeyCount", "Leases", "LeaseCount", "Signature")}}
+	mlsOpt = obs.Options{AllowOnly: map[string]map[string]bool{
+		"MetaLeaseSet": set("Destination", "Published", "PublishedTime", "Expires", "ExpirationTime", "Flags", "HasOfflineKeys", "IsUnpublished",
+			"OfflineSignature", "Signature", "NumEntries", "Entries", "GetEntry", "FindEntriesByType", "SortEntriesByCost"),
+		"MetaLeaseSetEntry": set("Hash", "Type", "Expires", "ExpiresTime", "Cost")}}
 )
 
 func c08Adapters() []*adapters.Adapter {
